@@ -20,13 +20,13 @@ META = dict(
     assumptions=['tie-break orders are enumerated through the PYTABLEAUX_VERIF hook (Node/Branch hash = permuted creation serial)',
                  'monitoring cap of 300/600 steps: capped runs have no verdict and are excluded (counted)'],
     min_events={'quick': {'arguments_compared': 1500, 'runs': 20000, 'logics': 52, 'distinct_signatures': 3000},
-                'thorough': {'arguments_compared': 15000, 'runs': 400000, 'logics': 52}},
+                'thorough': {'arguments_compared': 8000, 'runs': 150000, 'logics': 52}},
     budget=dict(quick=1500, thorough=7200),
     unit_timeout=dict(quick=900, thorough=3000),
 )
 
-NARGS = dict(quick=22, thorough=420)
-ORDERS = dict(quick=(0, 1), thorough=(0, 1, 2, 3, 5, 8))
+NARGS = dict(quick=22, thorough=200)
+ORDERS = dict(quick=(0, 1), thorough=(0, 1, 2, 5))
 SPLIT = dict(quick=2, thorough=4)
 
 
